@@ -707,11 +707,18 @@ pub fn check(run: &Run) -> Value {
     for (k, w) in regen_problems {
         total.violation(k, w, || json!({"regenerate": true}));
     }
+    let (variant_problems, variant_counts) = variant_databases();
+    total.cases += 2;
+    total.executions += variant_counts["comparisons"].as_u64().unwrap_or(0);
+    for (k, w) in variant_problems {
+        total.violation(k, w, || json!({"variant_databases": true}));
+    }
     total.report(run);
-    println!("C16 walk: {} cases; database {}; raw file {}; regenerated sizes {}", total.cases, counts, raw_counts, regen_sizes);
+    println!("C16 walk: {} cases; database {}; raw file {}; regenerated sizes {}; variant databases {}", total.cases, counts, raw_counts, regen_sizes, variant_counts);
     json!({
         "regenerated_and_reloaded_forms_bytes": regen_sizes,
         "database_file_decoded_generically": raw_counts,
+        "variant_databases": variant_counts,
         "states": total.cases,
         "transitions": total.executions,
         "traces_validated_against_impl": total.executions,
@@ -721,7 +728,7 @@ pub fn check(run: &Run) -> Value {
         "case_kinds": total.outcomes,
         "samples": total.samples.iter().map(|s| serde_json::from_str::<Value>(s).unwrap()).collect::<Vec<_>>(),
         "exhaustive": true,
-        "rule": "complete walk of rbx_reflection_database::get(): every class (superclass chain, every descriptor's alias / serializes-as / migration target / enum, every default's key and type), one instance per class carrying all inherited defaults through rbx_binary and rbx_xml, and every reachable (class, property name) pair through both codecs' lookups under catch_unwind",
+        "rule": "complete walk of rbx_reflection_database::get(): every class (superclass chain, every descriptor's alias / serializes-as / migration target / enum, every default's key and type), one instance per class carrying all inherited defaults through rbx_binary and rbx_xml, and every reachable (class, property name) pair through both codecs' lookups under catch_unwind; two databases of another shape built through the public types (duplicate migrations re-spelled as aliases: same behaviour as the bundled database for every subclass, value and path; a class with every descriptor shape and an alias of each: both codecs resolve every spelling to what the shapes say)",
     })
 }
 
@@ -732,6 +739,9 @@ pub fn replay(case: &Value) -> Vec<(String, String)> {
     if case.get("regenerate").is_some() {
         return regenerate().0;
     }
+    if case.get("variant_databases").is_some() {
+        return variant_databases().0;
+    }
     let c: Case16 = serde_json::from_value(case.clone()).unwrap_or_else(|e| crate::evidence::machinery_failure(&format!("bad replay: {}", e)));
     let a = judge(&c);
     let b = judge(&c);
@@ -739,4 +749,225 @@ pub fn replay(case: &Value) -> Vec<(String, String)> {
         crate::evidence::machinery_failure("replay gave two different observations");
     }
     a
+}
+
+// ---------------------------------------------------------------------------
+use rbx_reflection::ReflectionDatabase;
+
+// Regenerated databases of another shape ("any database regenerated by rbx_reflector from a
+// newer dump plus patches/"). Two variants are built through rbx_reflection's public types:
+//
+// V1 re-spells the bundled database without changing what it means: where one class declares
+// two migrating properties with the same target and operation (`BasePart.BrickColor` and
+// `brickColor`), the second becomes an *alias* of the first. Every DOM and every legacy-named
+// file must behave under V1 as it does under the bundled database.
+//
+// V2 adds a class that has every descriptor shape next to every other: plain, serialized-as
+// (+ the alias it is stored under), migrating (+ a serialized-as target), non-serializing, and
+// an alias of each. Whatever name a value is carried under, both codecs must resolve it the
+// same way, and to what the shapes say.
+
+fn v1_database() -> (ReflectionDatabase<'static>, Vec<(String, String, String)>) {
+    use rbx_reflection::{PropertyKind, PropertySerialization};
+    let mut database = rbx_reflection_database::get().clone();
+    let mut respelled = Vec::new();
+    let mut names: Vec<String> = database.classes.keys().map(|k| k.to_string()).collect();
+    names.sort();
+    for cn in names {
+        let class = database.classes.get_mut(cn.as_str()).unwrap();
+        let mut groups: BTreeMap<String, Vec<String>> = BTreeMap::new();
+        for (pn, p) in class.properties.iter() {
+            if let PropertyKind::Canonical { serialization: PropertySerialization::Migrate(m) } = &p.kind {
+                groups.entry(format!("{:?}|{:?}", m, p.data_type)).or_default().push(pn.to_string());
+            }
+        }
+        for (_, mut g) in groups {
+            g.sort();
+            for other in g.iter().skip(1) {
+                class.properties.get_mut(other.as_str()).unwrap().kind = PropertyKind::Alias { alias_for: std::borrow::Cow::Owned(g[0].clone()) };
+                respelled.push((cn.clone(), other.clone(), g[0].clone()));
+            }
+        }
+    }
+    (database, respelled)
+}
+
+fn v2_database() -> ReflectionDatabase<'static> {
+    use rbx_reflection::{ClassDescriptor, DataType, PropertyDescriptor, PropertyKind, PropertySerialization};
+    use std::borrow::Cow;
+    let mut database = rbx_reflection_database::get().clone();
+    let migrate = match &database.classes["BasePart"].properties["BrickColor"].kind {
+        PropertyKind::Canonical { serialization: PropertySerialization::Migrate(m) } => {
+            let mut m = m.clone();
+            m.new_property_name = "NewColor".to_owned();
+            m
+        }
+        other => crate::evidence::machinery_failure(&format!("BasePart.BrickColor is expected to migrate, found {:?}", other)),
+    };
+    let mut class = ClassDescriptor::new("ZzVerifShapes");
+    class.superclass = Some(Cow::Borrowed("Instance"));
+    let mut add = |name: &'static str, ty: VariantType, kind: PropertyKind<'static>| {
+        let mut p = PropertyDescriptor::new(name, DataType::Value(ty));
+        p.kind = kind;
+        class.properties.insert(Cow::Borrowed(name), p);
+    };
+    let canon = |s: PropertySerialization<'static>| PropertyKind::Canonical { serialization: s };
+    let alias = |t: &'static str| PropertyKind::Alias { alias_for: Cow::Borrowed(t) };
+    add("Plain", VariantType::Int32, canon(PropertySerialization::Serializes));
+    add("Stored", VariantType::Int32, canon(PropertySerialization::SerializesAs(Cow::Borrowed("stored"))));
+    add("stored", VariantType::Int32, alias("Stored"));
+    add("NewColor", VariantType::Color3, canon(PropertySerialization::SerializesAs(Cow::Borrowed("NewColor8"))));
+    add("NewColor8", VariantType::Color3uint8, alias("NewColor"));
+    add("OldColor", VariantType::BrickColor, canon(PropertySerialization::Migrate(migrate.clone())));
+    // a migration whose target is named by its stored (alias) spelling
+    let mut to_alias = migrate;
+    to_alias.new_property_name = "NewColor8".to_owned();
+    add("OldColorB", VariantType::BrickColor, canon(PropertySerialization::Migrate(to_alias)));
+    add("Hidden", VariantType::Int32, canon(PropertySerialization::DoesNotSerialize));
+    add("plainAlias", VariantType::Int32, alias("Plain"));
+    add("storedAlias", VariantType::Int32, alias("Stored"));
+    add("oldAlias", VariantType::BrickColor, alias("OldColor"));
+    add("hiddenAlias", VariantType::Int32, alias("Hidden"));
+    database.classes.insert(Cow::Borrowed("ZzVerifShapes"), class);
+    database
+}
+
+fn props_sorted(dom: &WeakDom) -> Result<Vec<(String, String)>, String> {
+    let i = first_instance(dom).ok_or("instance lost")?;
+    let mut v: Vec<(String, String)> = i.properties.iter().map(|(k, v)| (k.to_string(), r(v))).collect();
+    v.sort();
+    Ok(v)
+}
+
+type Props = Result<Vec<(String, String)>, String>;
+
+fn rt_binary(dom: &WeakDom, db: &'static ReflectionDatabase<'static>) -> Props {
+    let roots = dom.root().children().to_vec();
+    crate::evidence::guarded(|| -> Props {
+        let mut buf = Vec::new();
+        rbx_binary::Serializer::new().reflection_database(db).serialize(&mut buf, dom, &roots).map_err(|e| format!("encode: {}", e))?;
+        let d = rbx_binary::Deserializer::new().reflection_database(db).deserialize(buf.as_slice()).map_err(|e| format!("decode: {}", e))?;
+        props_sorted(&d)
+    })
+    .unwrap_or_else(|(s, m)| Err(format!("panic at {}: {}", s, m)))
+}
+
+fn rt_xml(dom: &WeakDom, db: &'static ReflectionDatabase<'static>) -> Props {
+    let roots = dom.root().children().to_vec();
+    crate::evidence::guarded(|| -> Props {
+        let mut buf = Vec::new();
+        rbx_xml::to_writer(&mut buf, dom, &roots, rbx_xml::EncodeOptions::new().reflection_database(db)).map_err(|e| format!("encode: {}", e))?;
+        let d = rbx_xml::from_reader(buf.as_slice(), rbx_xml::DecodeOptions::new().reflection_database(db)).map_err(|e| format!("decode: {}", e))?;
+        props_sorted(&d)
+    })
+    .unwrap_or_else(|(s, m)| Err(format!("panic at {}: {}", s, m)))
+}
+
+/// reads a file that still carries `name` verbatim (written without a database) with `db`
+fn read_legacy(dom: &WeakDom, db: &'static ReflectionDatabase<'static>, xml: bool) -> Props {
+    static EMPTY: std::sync::OnceLock<ReflectionDatabase<'static>> = std::sync::OnceLock::new();
+    let empty = EMPTY.get_or_init(ReflectionDatabase::new);
+    let roots = dom.root().children().to_vec();
+    crate::evidence::guarded(|| -> Props {
+        let mut buf = Vec::new();
+        if xml {
+            rbx_xml::to_writer(&mut buf, dom, &roots, rbx_xml::EncodeOptions::new().property_behavior(rbx_xml::EncodePropertyBehavior::NoReflection)).map_err(|e| format!("encode: {}", e))?;
+            let d = rbx_xml::from_reader(buf.as_slice(), rbx_xml::DecodeOptions::new().reflection_database(db)).map_err(|e| format!("decode: {}", e))?;
+            props_sorted(&d)
+        } else {
+            rbx_binary::Serializer::new().reflection_database(empty).serialize(&mut buf, dom, &roots).map_err(|e| format!("encode: {}", e))?;
+            let d = rbx_binary::Deserializer::new().reflection_database(db).deserialize(buf.as_slice()).map_err(|e| format!("decode: {}", e))?;
+            props_sorted(&d)
+        }
+    })
+    .unwrap_or_else(|(s, m)| Err(format!("panic at {}: {}", s, m)))
+}
+
+pub fn variant_databases() -> (Vec<(String, String)>, Value) {
+    use rbx_dom_weak::InstanceBuilder;
+    use rbx_types::{BrickColor, Color3, Color3uint8};
+    static V1: std::sync::OnceLock<(ReflectionDatabase<'static>, Vec<(String, String, String)>)> = std::sync::OnceLock::new();
+    static V2: std::sync::OnceLock<ReflectionDatabase<'static>> = std::sync::OnceLock::new();
+    let (v1, respelled) = V1.get_or_init(v1_database);
+    let v2 = V2.get_or_init(v2_database);
+    let bundled: &'static ReflectionDatabase<'static> = rbx_reflection_database::get();
+    let mut out = Vec::new();
+    let mut compared = 0u64;
+    // V1: same behaviour as the bundled database, for the declaring class and every subclass
+    let mut class_names: Vec<String> = bundled.classes.keys().map(|k| k.to_string()).collect();
+    class_names.sort();
+    for (declaring, aliased, target) in respelled {
+        for cn in &class_names {
+            let chain = match specdb::class_chain(cn) {
+                Some(c) => c,
+                None => continue,
+            };
+            if !chain.iter().any(|c| c.name.as_ref() == declaring.as_str()) {
+                continue;
+            }
+            let ty = bundled.classes[declaring.as_str()].properties[aliased.as_str()].data_type.clone();
+            let values: Vec<Variant> = match ty {
+                rbx_reflection::DataType::Value(VariantType::BrickColor) => vec![Variant::BrickColor(BrickColor::from_number(21).unwrap()), Variant::BrickColor(BrickColor::from_number(1004).unwrap())],
+                rbx_reflection::DataType::Value(VariantType::Bool) => vec![Variant::Bool(true), Variant::Bool(false)],
+                rbx_reflection::DataType::Value(VariantType::ContentId) => vec![Variant::ContentId("rbxassetid://5".into())],
+                rbx_reflection::DataType::Enum(_) => vec![Variant::Enum(rbx_types::Enum::from_u32(3))],
+                _ => continue,
+            };
+            for v in values {
+                for spelled in [aliased.as_str(), target.as_str()] {
+                    let dom = WeakDom::new(InstanceBuilder::new("DataModel").with_child(InstanceBuilder::new(cn.as_str()).with_name("x").with_property(spelled, v.clone())));
+                    let pairs: [(&str, Props, Props); 4] = [
+                        ("binary round trip", rt_binary(&dom, bundled), rt_binary(&dom, v1)),
+                        ("XML round trip", rt_xml(&dom, bundled), rt_xml(&dom, v1)),
+                        ("binary read of a legacy-named file", read_legacy(&dom, bundled, false), read_legacy(&dom, v1, false)),
+                        ("XML read of a legacy-named file", read_legacy(&dom, bundled, true), read_legacy(&dom, v1, true)),
+                    ];
+                    for (what, a, b) in pairs {
+                        compared += 1;
+                        if a != b {
+                            out.push((
+                                format!("c16|variant-db|respelled-alias|{}|{}", what.split(' ').next().unwrap_or(""), aliased),
+                                format!("{}.{} = {} ({}): with {}.{} declared as an alias of {} instead of repeating its migration the result is {:?}, with the bundled database {:?}", cn, spelled, r(&v), what, declaring, aliased, target, b, a),
+                            ));
+                        }
+                    }
+                }
+            }
+        }
+    }
+    // V2: every descriptor shape, every spelling, both codecs, against what the shapes say
+    let brick = BrickColor::from_number(21).unwrap();
+    let rgb = brick.to_color3uint8();
+    let c8 = Variant::Color3uint8(Color3uint8::new(10, 20, 30));
+    let cases: Vec<(&str, Variant, Vec<(String, String)>)> = vec![
+        ("Plain", Variant::Int32(5), vec![("Plain".into(), r(&Variant::Int32(5)))]),
+        ("plainAlias", Variant::Int32(6), vec![("Plain".into(), r(&Variant::Int32(6)))]),
+        ("Stored", Variant::Int32(7), vec![("Stored".into(), r(&Variant::Int32(7)))]),
+        ("stored", Variant::Int32(8), vec![("Stored".into(), r(&Variant::Int32(8)))]),
+        ("storedAlias", Variant::Int32(9), vec![("Stored".into(), r(&Variant::Int32(9)))]),
+        ("NewColor", Variant::Color3(Color3::new(1.0, 0.0, 0.2)), vec![("NewColor".into(), r(&Variant::Color3uint8(Color3uint8::new(255, 0, 51))))]),
+        ("NewColor8", c8.clone(), vec![("NewColor".into(), r(&c8))]),
+        ("OldColor", Variant::BrickColor(brick), vec![("NewColor".into(), r(&Variant::Color3uint8(rgb)))]),
+        ("oldAlias", Variant::BrickColor(brick), vec![("NewColor".into(), r(&Variant::Color3uint8(rgb)))]),
+        ("OldColorB", Variant::BrickColor(brick), vec![("NewColor".into(), r(&Variant::Color3uint8(rgb)))]),
+        ("Hidden", Variant::Int32(1), vec![]),
+        ("hiddenAlias", Variant::Int32(2), vec![]),
+    ];
+    for (name, v, want) in &cases {
+        let dom = WeakDom::new(InstanceBuilder::new("DataModel").with_child(InstanceBuilder::new("ZzVerifShapes").with_name("x").with_property(*name, v.clone())));
+        for (codec, got) in [("binary", rt_binary(&dom, v2)), ("xml", rt_xml(&dom, v2)), ("binary-legacy-file", read_legacy(&dom, v2, false)), ("xml-legacy-file", read_legacy(&dom, v2, true))] {
+            compared += 1;
+            // a file written without a database stores the Color3 as such; nothing quantises it
+            let unquantised = vec![("NewColor".to_owned(), r(v))];
+            let want = if codec.ends_with("legacy-file") && *name == "NewColor" { &unquantised } else { want };
+            match got {
+                Ok(g) if &g == want => {}
+                other => out.push((
+                    format!("c16|variant-db|shapes|{}|{}", codec, name),
+                    format!("a database with a class of every descriptor shape: ZzVerifShapes.{} = {} through {} gives {:?}, the descriptors say {:?}", name, r(v), codec, other, want),
+                )),
+            }
+        }
+    }
+    (out, json!({"respelled_duplicate_migrations": respelled.len(), "comparisons": compared, "synthetic_shape_spellings": cases.len()}))
 }
